@@ -59,6 +59,14 @@ fn positions() -> Vec<(&'static str, &'static str, &'static [&'static str])> {
         ("parenthesised", "(($))", &[]),
         ("both sides of ==", "$ == $", &[]),
         ("call argument of a user function", "myfn($, 1)", &["myfn"]),
+        // calls that also read the clock (never folded)
+        ("argument next to a clock read", "max($, size(string(now())))", &["max", "size", "string", "now"]),
+        ("macro range with a clock read in the body", "[$].map(i, i == now())", &["map", "i", "now"]),
+        ("operand of a clock difference", "(now() - $).getSeconds()", &["now", "getSeconds"]),
+        ("argument of timestamp()", "[timestamp(), $]", &["timestamp"]),
+        // type patterns
+        ("match scrutinee with type patterns", "match $ { case int: 1, case string: 2, case _: 0 }", &["_"]),
+        ("match arm after a type pattern", "match 1 { case int: $, case _: 0 }", &["_"]),
         ("argument of a method on a variable", "recv.call($)", &["recv", "call"]),
     ]
 }
@@ -178,13 +186,39 @@ impl Space {
         if got.is_panic() {
             acc.violation(&format!("{} exec-panic", site), case(), "a value or an error".into(), got.show());
         }
+        // relevance: binding names that are NOT reported (type names, other identifiers of the
+        // source, names that do not occur at all) must not change the result
+        if !src.contains("now()") && !src.contains("timestamp()") {
+            let mut b2 = BindContext::new();
+            for p in &params {
+                b2.bind_param(p, CelValue::Int(1));
+            }
+            let mut extra = Vec::new();
+            for name in ["int", "string", "bool", "list", "unrelated_zz"].iter().map(|s| s.to_string()).chain(idents.iter().cloned()) {
+                if !params.contains(&name) && !free.contains(&name) {
+                    b2.bind_param(&name, CelValue::String("spurious".into()));
+                    extra.push(name);
+                }
+            }
+            let got2 = real::exec_prog(prog.clone(), &b2);
+            acc.eval();
+            if !got.agrees(&got2) {
+                acc.violation(
+                    &format!("{} result-depends-on-an-unreported-name", site),
+                    json!({"src": src, "reported": params, "additionally_bound": extra}),
+                    got.show(),
+                    got2.show(),
+                );
+            }
+        }
         // filter_from_bindings removes exactly the names the set binds
         for mask in 0u32..(1 << free.len().min(2)) {
             let mut fb = BindContext::new();
             let mut bound_vars: BTreeSet<String> = BTreeSet::new();
             for (i, f) in free.iter().take(2).enumerate() {
                 if mask & (1 << i) != 0 {
-                    fb.bind_param(f, CelValue::Int(1));
+                    // the first one bound to null: a null value is still a binding
+                    fb.bind_param(f, if i == 0 { CelValue::Null } else { CelValue::Int(1) });
                     bound_vars.insert(f.clone());
                 }
             }
@@ -276,7 +310,7 @@ pub fn run(t: Tier) -> i32 {
     let mut rep = Report::new(ID, t, "exploration");
     let sp = Space::new();
     rep.rule = format!(
-        "positions: {} syntactic positions (operands of every operator class, call arguments and receivers, type constructor and user function arguments, macro ranges, bodies, nested bodies, predicates, reduce seed/step, f-string segments, index expressions, indexed objects, map keys and values, list elements, match scrutinees, patterns and arms, ternary conditions and branches incl. untaken ones under a constant condition, has/coalesce arguments, member chain roots, parentheses) x {} fillers (one variable, two variables, a variable also used as a loop variable elsewhere, a variable with a field access); nested-positions: all ordered pairs of positions x fillers (thorough: also all ordered triples). The generator knows the free variables it placed and every identifier in the text: Free(E) must be contained in params(E), params(E) in Idents(E); binding every reported name must not leave a free variable unbound; filter_from_bindings must remove exactly the names bound as variable (every subset of up to 2 free variables), function or macro (the default tables). Non-trivial = every grammatical program; distinct by source",
+        "positions: {} syntactic positions (operands of every operator class, call arguments and receivers, type constructor and user function arguments, macro ranges, bodies, nested bodies, predicates, reduce seed/step, f-string segments, index expressions, indexed objects, map keys and values, list elements, match scrutinees, patterns and arms, ternary conditions and branches incl. untaken ones under a constant condition, has/coalesce arguments, member chain roots, parentheses) x {} fillers (one variable, two variables, a variable also used as a loop variable elsewhere, a variable with a field access); nested-positions: all ordered pairs of positions x fillers (thorough: also all ordered triples). The generator knows the free variables it placed and every identifier in the text: Free(E) must be contained in params(E), params(E) in Idents(E); binding every reported name must not leave a free variable unbound; additionally binding every unreported name (type names, other identifiers of the source, an unrelated name) must not change the result; filter_from_bindings must remove exactly the names bound as variable (every subset of up to 2 free variables), function or macro (the default tables). Non-trivial = every grammatical program; distinct by source",
         sp.pos.len(),
         sp.fil.len()
     );
